@@ -477,6 +477,15 @@ calc_grep_atom(const char *fmt)
 		const char *fp_sav = fp;
 		struct dt_spec_s spec = __tok_spec(fp_sav, &fp);
 
+		if (spec.rom) {
+			/* Roman numerals have their own widths,
+			 * I to XXXVIII resp. MMMDCCCLXXXVIII */
+			res.pl.off_min -=
+				spec.spfl == DT_SPFL_N_YEAR ? 15 : 7;
+			res.pl.off_max -= 1;
+			res.pl.flags |= GRPATM_O_SPEC;
+			continue;
+		}
 		/* pre checks */
 		if (spec.ord) {
 			/* account for the extra 2 letters, but they're
